@@ -43,8 +43,29 @@ def withRecords (h : String) (f : List Record → String) : String :=
   | .errors _ => "errors"
   | .panic => "panic"
 
-def handle (args : List String) : String :=
+def sortStats (xs : List TagStat) : List TagStat :=
+  xs.foldl (fun acc x =>
+    let (lo, hi) := acc.span (fun y => !charsLt (tagKey x.tag) (tagKey y.tag))
+    lo ++ [x] ++ hi) []
+
+def sortStrings (xs : List (List Char)) : List (List Char) :=
+  xs.foldl (fun acc x =>
+    let (lo, hi) := acc.span (fun y => !charsLt x y)
+    lo ++ [x] ++ hi) []
+
+def tagsLine (u : UTab) (lines : List (List Char)) : String :=
+  let ts := summaryTags u lines
+  let printed := ts.map (fun t => hexOfChars (t.print u))
+  let look := sortStrings ((lookupSet ts).map tagKey)
+  s!"ok [{commaSep printed}] [{commaSep (look.map hexOfChars)}]"
+
+def statsLine (u : UTab) (rs : List Record) : String :=
+  commaSep ((sortStats (aggregateTags u rs)).map (fun s => s!"{hexOfChars (tagKey s.tag)}:{s.total}:{s.count}"))
+
+def handle (u : UTab) (args : List String) : String :=
   match args with
+  | ["tags", h] => tagsLine u [decodeGo (bytesOfHex h)]
+  | ["tagstats", h] => withRecords h fun rs => "ok " ++ statsLine u rs
   | ["blocks", h] => "ok " ++ canonBlocks (blocksOf (bytesOfHex h))
   | ["parse", h] => canonDoc (parseDoc (bytesOfHex h))
   | ["pblocks", h, n] => "ok " ++ canonBlocks (parallelBlocks (bytesOfHex h) n.toNat!)
@@ -69,13 +90,42 @@ def handle (args : List String) : String :=
   | ["print", h] => withRecords h fun rs => "ok " ++ hexOrDash (hexOfChars (printRecords rs))
   | _ => "bad-op"
 
-partial def loop (hin : IO.FS.Stream) (hout : IO.FS.Stream) : IO Unit := do
+partial def loop (u : UTab) (hin : IO.FS.Stream) (hout : IO.FS.Stream) : IO Unit := do
   let line ← hin.getLine
   if line.isEmpty then return ()
   let line := (line.toList.filter (fun c => c != '\n' && c != '\r'))
-  hout.putStrLn (handle ((String.ofList line).splitOn " " |>.filter (· ≠ "")))
+  hout.putStrLn (handle u ((String.ofList line).splitOn " " |>.filter (· ≠ "")))
   hout.flush
-  loop hin hout
+  loop u hin hout
 
-def main (_args : List String) : IO Unit := do
-  loop (← IO.getStdin) (← IO.getStdout)
+def readPairs (path : String) : IO (Array (Nat × Nat)) := do
+  let txt ← IO.FS.readFile path
+  let mut res : Array (Nat × Nat) := #[]
+  for l in txt.splitOn "\n" do
+    match l.splitOn " " with
+    | [a, b] => res := res.push (a.toNat!, b.toNat!)
+    | _ => pure ()
+  return res
+
+/-- binary search for the last entry with first component ≤ n -/
+def findLE (arr : Array (Nat × Nat)) (n : Nat) : Option (Nat × Nat) := Id.run do
+  let mut lo := 0
+  let mut hi := arr.size
+  while lo < hi do
+    let mid := (lo + hi) / 2
+    if arr[mid]!.1 ≤ n then lo := mid + 1 else hi := mid
+  if lo == 0 then return none else return some arr[lo - 1]!
+
+def asciiTab : UTab :=
+  { isLetter := fun c => ('a' ≤ c && c ≤ 'z') || ('A' ≤ c && c ≤ 'Z'),
+    lower := fun c => if 'A' ≤ c && c ≤ 'Z' then Char.ofNat (c.toNat + 32) else c }
+
+def main (args : List String) : IO Unit := do
+  let u ← match args with
+    | dir :: _ => do
+      let letters ← readPairs (dir ++ "/letters.txt")
+      let lower ← readPairs (dir ++ "/lower.txt")
+      pure ({ isLetter := fun c => match findLE letters c.toNat with | some (_, hi) => c.toNat ≤ hi | none => false,
+              lower := fun c => match findLE lower c.toNat with | some (k, v) => if k == c.toNat then Char.ofNat v else c | none => c } : UTab)
+    | [] => pure asciiTab
+  loop u (← IO.getStdin) (← IO.getStdout)
